@@ -272,6 +272,18 @@ class Body:
             return [t["t"]] if t.get("t") is not None else []
         return []
 
+    # --- parameters by type (robust against renames)
+    def params(self):
+        return [l for l in self.locals if 0 < l["i"] <= self.mir["argc"]]
+
+    def param_by_type(self, pred, nth=0, what="parameter"):
+        """index of the nth parameter whose type satisfies pred (a substring or a callable)."""
+        f = pred if callable(pred) else (lambda ty: pred in ty)
+        hits = [l["i"] for l in self.params() if f(l["ty"])]
+        if len(hits) <= nth:
+            raise CheckError("%s: no %s of the expected type (%s)" % (self.key, what, pred if not callable(pred) else "predicate"))
+        return hits[nth]
+
     # --- naming
     def local_name(self, i):
         return self.locals[i].get("name")
